@@ -2,23 +2,10 @@
 """Writes MANIFEST.json from the table below (single source of truth for claims) and validates it."""
 import json, sys
 props = [json.loads(l) for l in open('/verif/properties.jsonl')]
-CLAIMS = {
- 'C17': {
-   'category': 'proof',
-   'text': 'CBMC discharges, for all inputs, the function contracts (goto-instrument --dfcc) of the bitstream primitives sliced from /repo on every run: zig-zag maps of all four widths (closed form + both inverse directions), array zig-zag (loop contracts, any length), DecoderBuffer Peek/Decode of every scalar width (bounds, value, position, frame), BitDecoder GetBit/PeekBit/GetBits/EnsureBits/AvailBits/reset (loop contracts, any buffer length), varint decoding (inductive contract over the recursion), and the varint encode->decode round trip for all values of all 8 integer types incl. truncated and exact-length buffers (recursion unwound to its width bound with unwinding assertions). Not covered: composition of per-operation lemmas over whole bit sequences (paper induction).',
-   'design_ref': 'DESIGN.md section 5 (C17)',
-   'note': 'Trusted: CBMC 6.11; slicer rules (guarded by native co-simulation against the real compiled functions); std::vector stub model; DecoderBuffer representation invariant as precondition.',
-   'technique': 'contract-based deductive verification (CBMC function + loop contracts via goto-instrument --dfcc) on code sliced mechanically from /repo each run'},
-},
- 'C16': {
-   'category': 'proof',
-   'text': 'CBMC proves on the text sliced from /repo each run: wrap transform - for ALL (min,max) the transform accepts (contract of InitCorrectionBounds: accepted iff 0 <= max-min < 2^31-1, announced interval as specified), ALL originals in range and ALL 32-bit predictions, the correction lies in the announced interval and the decoder returns the original (per component; no signed overflow on either side; arbitrary corrections are UB-free); canonicalized octahedral transform - for each quantization q (quick: 8 values of q, thorough: all 2..30) and ALL pairs of canonical coordinates, corrections in [0,max_value] and decoder returns the original; contracts of ClampPredictedValue (loop contract, any component count), DecodeTransformData of both transforms, SetQuantizationBits, AddAsUnsigned.',
-   'design_ref': 'DESIGN.md section 5 (C16)',
-   'note': 'Trusted: CBMC; slicer (co-simulated); Point2/VectorD stand-ins in contracts/pred_helpers.h; the lemma is per component (component loop unwound for 1 component, 2 in thorough).',
-   'technique': 'contract-based deductive verification (CBMC contracts + full-domain symbolic lemmas) on code sliced from /repo each run'},
-}
+import os
+sys.path.insert(0, os.path.dirname(os.path.abspath(__file__)))
+from claims import CLAIMS, NA
 NA_REASON = 'check not built yet (see DESIGN.md for the plan)'
-NA = {}
 m = {"version": 1,
  "setup_cmd": "true",
  "hooks": {"guard": "DRACO_VERIF", "enable": "no guarded hooks exist: CBMC's C++ front end rejects contract syntax, so contracts live in /verif/contracts and are bound to function bodies sliced from /repo's working tree on every run", "baseline_off_cmd": "/verif/run_baseline.sh", "source_commits": [], "add_only": True},
